@@ -9,6 +9,7 @@ package main
 import (
 	"bufio"
 	"bytes"
+	"context"
 	"crypto/sha256"
 	"encoding/hex"
 	"encoding/json"
@@ -18,6 +19,7 @@ import (
 	"net/http/httptest"
 	"os"
 	"reflect"
+	"runtime"
 	"strconv"
 	"strings"
 	"sync"
@@ -287,10 +289,7 @@ func (s *verifC32State) line(f []string) (out string) {
 		if effAlg == "" {
 			effAlg = s.defAlg
 		}
-		s.fs3.failPut, s.fs3.failCreate, s.fs3.failPart, s.fs3.failComplet, s.fs3.failDelete = f[5] == "put", f[5] == "create", 0, f[5] == "complete", f[5] == "delete"
-		if f[5] == "part1" {
-			s.fs3.failPart = 1
-		}
+		s.fs3.script = verifC32Script(f[5])
 		s.setBroker(f[6])
 		before := len(s.fs3.putKeys)
 		req := httptest.NewRequest(http.MethodPost, "/lfs/produce", bytes.NewReader(body))
@@ -304,7 +303,7 @@ func (s *verifC32State) line(f []string) (out string) {
 		}
 		rr := httptest.NewRecorder()
 		s.m.handleHTTPProduce(rr, req)
-		s.fs3.failPut, s.fs3.failCreate, s.fs3.failPart, s.fs3.failComplet, s.fs3.failDelete = false, false, 0, false, false
+		s.fs3.script = nil
 		key := ""
 		if len(s.fs3.putKeys) > before {
 			key = s.fs3.putKeys[len(s.fs3.putKeys)-1]
@@ -395,6 +394,8 @@ func (s *verifC32State) line(f []string) (out string) {
 		s.m.handleHTTPUploadSession(rr, httptest.NewRequest(http.MethodPost, "/lfs/uploads/"+id+"/complete", bytes.NewReader(body)))
 		s.fs3.failComplet = false
 		return s.outcome("complete", rr, s.sessKey, s.sessTail())
+	case "par":
+		return s.par(f[1:])
 	case "abort":
 		id := s.sessID
 		if id == "" {
@@ -418,6 +419,155 @@ func (s *verifC32State) line(f []string) (out string) {
 		return s.outcome("expire", rr, s.sessKey, s.sessTail())
 	}
 	return "bad-op"
+}
+
+// verifC32Script turns a fault token `<put|create|part<k>|complete|delete|abort>[.once][.before]` into a scripted S3
+// outcome: persistent unless `.once`, fail-after-read (S3 consumed the request body) unless `.before`.
+func verifC32Script(tok string) []*verifC3xFault {
+	parts := strings.Split(tok, ".")
+	flt := &verifC3xFault{}
+	switch {
+	case parts[0] == "put":
+		flt.op = "PutObject"
+	case parts[0] == "create":
+		flt.op = "CreateMultipartUpload"
+	case parts[0] == "complete":
+		flt.op = "CompleteMultipartUpload"
+	case parts[0] == "delete":
+		flt.op = "DeleteObject"
+	case parts[0] == "abort":
+		flt.op = "AbortMultipartUpload"
+	case strings.HasPrefix(parts[0], "part"):
+		k, err := strconv.Atoi(parts[0][4:])
+		if err != nil || k <= 0 {
+			return nil
+		}
+		flt.op, flt.part = "UploadPart", int32(k)
+	default:
+		return nil
+	}
+	for _, fl := range parts[1:] {
+		switch fl {
+		case "once":
+			flt.once = true
+		case "before":
+			flt.before = true
+		}
+	}
+	return []*verifC3xFault{flt}
+}
+
+// verifC32MutexBlocked counts the upload-session handlers that are parked on a mutex (the session lock).
+func verifC32MutexBlocked() int {
+	buf := make([]byte, 4<<20)
+	n := runtime.Stack(buf, true)
+	cnt := 0
+	for _, g := range strings.Split(string(buf[:n]), "\n\n") {
+		hdr, _, _ := strings.Cut(g, "\n")
+		if (strings.Contains(hdr, "sync.Mutex.Lock") || strings.Contains(hdr, "semacquire")) && strings.Contains(g, "handleHTTPUpload") {
+			cnt++
+		}
+	}
+	return cnt
+}
+
+// par runs requests of the current session so that they OVERLAP: request 0 is started and held inside the S3
+// UploadPart call (gate of the ghost S3, after S3 read the body); each further request is started once its
+// predecessor is accounted for — inside the gate too, answered, or parked on the session mutex (the code as it is) —
+// and the gate opens when all k are.  With the session lock held across the S3 call the requests are therefore
+// served in arrival order; anything that lets a second request past the checks while the first is in its S3 round
+// trip has both in the gate at once.  req = part:<n>:<len>:<fill>:<s3Fails> | abort.
+func (s *verifC32State) par(reqs []string) string {
+	k := len(reqs)
+	var mu sync.Mutex
+	gated, finished, maxGated := 0, 0, 0
+	open := make(chan struct{})
+	s.fs3.gate = func(op string, pn int32) {
+		if op != "UploadPart" {
+			return
+		}
+		select {
+		case <-open: // the gate is open: a request served after the overlapping ones were released
+			return
+		default:
+		}
+		mu.Lock()
+		gated++
+		if gated > maxGated {
+			maxGated = gated
+		}
+		mu.Unlock()
+		<-open
+	}
+	defer func() { s.fs3.gate = nil }()
+	id := s.sessID
+	if id == "" {
+		id = "no-such-session"
+	}
+	codes := make([]int, k)
+	recs := make([]*httptest.ResponseRecorder, k)
+	var wg sync.WaitGroup
+	for i, rq := range reqs {
+		g := strings.Split(rq, ":")
+		var req *http.Request
+		switch g[0] {
+		case "part":
+			n, _ := strconv.Atoi(g[1])
+			ln, _ := strconv.Atoi(g[2])
+			fill, _ := strconv.Atoi(g[3])
+			req = httptest.NewRequest(http.MethodPut, fmt.Sprintf("/lfs/uploads/%s/parts/%d", id, n), bytes.NewReader(verifC32Fill(ln, byte(fill))))
+			if g[4] == "1" {
+				req = req.WithContext(verifC3xWithScript(context.Background(), []*verifC3xFault{{op: "UploadPart", once: true}}))
+			}
+		default:
+			req = httptest.NewRequest(http.MethodDelete, "/lfs/uploads/"+id, nil)
+		}
+		recs[i] = httptest.NewRecorder()
+		wg.Add(1)
+		go func(i int, req *http.Request) {
+			defer wg.Done()
+			defer func() {
+				if r := recover(); r != nil {
+					codes[i] = -1
+				}
+				mu.Lock()
+				finished++
+				mu.Unlock()
+			}()
+			s.m.handleHTTPUploadSession(recs[i], req)
+			codes[i] = recs[i].Code
+		}(i, req)
+		deadline := time.Now().Add(3 * time.Second)
+		for time.Now().Before(deadline) {
+			mu.Lock()
+			acc := gated + finished
+			mu.Unlock()
+			if acc+verifC32MutexBlocked() >= i+1 {
+				break
+			}
+			time.Sleep(200 * time.Microsecond)
+		}
+	}
+	close(open)
+	wg.Wait()
+	sts := make([]string, k)
+	for i, rq := range reqs {
+		sts[i] = strconv.Itoa(codes[i])
+		if strings.HasPrefix(rq, "part:") && codes[i] == http.StatusOK {
+			var resp lfsUploadPartResponse
+			if json.Unmarshal(recs[i].Body.Bytes(), &resp) == nil {
+				n, _ := strconv.Atoi(strings.Split(rq, ":")[1])
+				s.etags[n] = resp.ETag
+			}
+		}
+	}
+	objS := "none"
+	if s.sessKey != "" {
+		if obj, ok := s.fs3.object(s.sessKey); ok {
+			objS = strconv.Itoa(len(obj))
+		}
+	}
+	return fmt.Sprintf("par status=%s env=none sha_is_obj=na produced=false%s obj=%s | overlap=%d", strings.Join(sts, ","), s.sessTail(), objS, maxGated)
 }
 
 func verifC32Main() {
